@@ -106,6 +106,14 @@ CLAIMS = {
    note=SMNOTE + "Also: finish time and the system app's target version are written and committed before reboot_needed is asked (spliced assertion in perform_update_check); run reports the reboot wait only with a stored finish time and a stored target version equal to the running OS version and clears the record (two removes + commit) only after a successful report. "
         "That the reported duration excludes later delays (start time captured once before the loop) is not covered.",
    technique="contract-based deductive verification (Verus) with ghost interaction logs", design="4/C18"),
+ "C17": dict(
+   text="Proof (Verus) of the real make_etag and PrivateKeys::find of the mock server: for every request target the client can build (any path and query) no panic; an ETag is produced iff the target is not \"/\", carries a cup2key pair (the first pair so named, wherever it stands in the query) "
+        "and the server holds a key (latest first, then first historical entry) for the id before the first colon; the ETag is hex(DER sig):hex(SHA-256(request body)) with the signature made by that key over SHA-256(SHA-256(req)||SHA-256(resp)||cup2key value). "
+        "Conformance lemma against the client verifier's contract (cup_etag_accepts, the predicate proved of verify_response under C01): the client holding the public half under that id accepts this ETag for that exchange, and the id the server parses back is the one the client named.",
+   note=TRUST + "url::Url query parsing, hyper Bytes, sha2, hex and P-256 are stand-ins (query_pairs_of, sha256, hex_encode, ecdsa_sign uninterpreted; assumed: sign-then-verify, hex round trip and alphabet, decimal round trip). "
+        "'for no other exchange' is unforgeability of ECDSA and collision resistance of SHA-256 and is not provable; the verified statement is that acceptance is tied to the digest of exactly (request, response, id, nonce) (C01). "
+        "handle_omaha_request (serde_json document assembly), handle_set_responses and the end-to-end state-machine clause are not under contract.",
+   technique="contract-based deductive verification (Verus) of mechanically extracted functions", design="4/C17"),
 }
 
 NA = {
